@@ -43,8 +43,8 @@ CLAIMED = {
     text='Slice: session_sid::valid_sid accepts exactly the language I[0-9a-f]{32} and hands on exactly the 32 digits; new identifiers are 32 lower-case hex digits (tohex exact for 16 bytes); '
          'protocol skeletons of session_sid::save/load/clear: storage is addressed only with an identifier that passed valid_sid or was freshly generated, a reset removes the old id and issues a fresh one, '
          'a loaded session past its deadline is removed and not returned, clear removes the stored session and clears the cookie. The in-memory storage (session_memory_storage: save / load / remove / short_gc) is under contract over abstract containers: a session is returned only under the id it was saved under and only while its deadline has not passed, with the stored data and deadline; save keeps one deadline entry per session; remove takes the session out of both structures; the opportunistic collection never removes a live session.',
-    note=TRUST + 'Identifiers in the skeletons are abstracted to tags; storage, cookie accessors, time() and the random device are stubs. Not covered: session_interface (values, exposed flags, age, expiration modes), '
-         'session_dual, memory/tcp storages, unpredictability of identifiers, histories over browsers and clocks.',
+    note=TRUST + 'Identifiers in the skeletons are abstracted to tags; storage, cookie accessors, time() and the random device are stubs. The save policy of session_interface is under contract (unit sessintf): an empty session is never written (stored copy dropped, exposed values withdrawn); a changed / new / reset session is written exactly once with the serialised current data and the deadline of its expiration mode (fixed keeps the deadline it was created with, renew / browser and new sessions get now + period); an unchanged fixed session is left alone; an unchanged renew / browser session is renewed with a fresh deadline at the latest when 90% of its period is used up. Not covered: the value / exposed-flag accessors and update_exposed, load_data / save_data packing, '
+         'session_dual, tcp storage, unpredictability of identifiers, histories over browsers and clocks.',
     design='4 (C05/C06)', technique='cbmc code contracts (dfcc) on extracted C: exact-language contract, protocol skeletons with ghost tags'),
  'C11': dict(
     text='Slice: the JSON string writer (generic_append, used for every key and string value): opening quote, every input byte represented exactly once and in order (verbatim only if it is not a quotation mark, '
